@@ -15,7 +15,8 @@ RULE = ("cases are generated per helper (workload, range, linspace, logspace, cl
         "the list templates at int and at double (signed zeros, NaN, infinities as elements), Median twice on the vector it reorders. "
         "Statistics run over the whole finite double range (data scaled by 2^e up to DBL_MAX and down to subnormals, |x| >> spread at relative 1e-16..1e-3, neighbours 1..1000 ulp apart, mixed magnitudes, "
         "even-length sets whose middle elements straddle zero, n = 1, 2, odd/even) against exact rational references with a-priori rounding slack, and the laws are checked inside one process "
-        "(op laws / wlaws: data, 2^e * data, data + t, rotated data; power-of-two scalings must be reproduced exactly). "
+        "(op laws / wlaws: data, 2^e * data, data + t, rotated data; power-of-two scalings must be reproduced exactly; op wshift: weighted data and the same data with every value shifted; "
+        "op history: one vector object handed to 1..12 statistics calls in a row, Median among them, on exact-sum data in any order of calls and on data from the whole double range with the order-sensitive calls before the first Median; non-trivial with >= 3 data and >= 2 calls). "
         "Sessions (op seq): every helper entry point right after every kind of ambient event (matrix), and random sessions of two to seven requests of any helpers in ONE process - repeated identical requests, larger-then-smaller grids, a request after one from the extreme regions "
         "(a grid that overflows, statistics that produce NaN) - interleaved with the ambient state that unrelated code leaves behind: errno set to EDOM/ERANGE/other values, "
         "floating-point exception flags raised, state and format flags of cout/cerr/clog/cin changed, other library facilities evaluated in and beyond their tails "
@@ -32,7 +33,16 @@ LEVEL_TEXT = ("Theorems (Coq, unbounded, all listed in evidence.coverage.theorem
               "Range(max) = Range(0,max) and Range(min,max) enumerate the ascending/descending unit-step range; Lists_Equal on lists of lists is equality; Transpose_Lists(v1,v2) is the list of pairs or exits; "
               "a second Median on the reordered vector gives the same value and the vector stays a permutation of the data; Median({a,b}) = Arithmetic_Mean({a,b}); "
               "sessions: since every helper of the model is a function of its arguments alone, the k-th answer of any session equals the answer of the same request alone in any other ambient state, whatever the earlier calls and events left behind, and a repeated request gets the same answer. "
-              "Not theorems: the scaling/permutation laws of Weighted_Average with unequal weights (S4: exact rational evaluation of Cochran's formula); rounding behaviour of the floating-point grids and statistics (covered by correspondence, bit-identical, and by S4 with a-priori rounding slack); that std::nth_element/upper_bound/is_sorted meet their specifications; that the C++ helpers read no ambient process state (errno, exception flags, stream state) and keep no statics is a fact about the code, tied by correspondence on sessions and by the fresh-process comparison, not a theorem. "
+              "Weighted_Average with arbitrary (unequal) weights: Cochran's formula as the library writes it (three sums around Average*wAverage) equals the closed form avg = sum w v / sum w, SE^2 = N/(N-1)/W^2 sum (w (v - avg))^2 "
+              "that S4 evaluates in rationals (C19_weighted_closed_form, a ring identity by induction over the data), its radicand is non-negative for N >= 2, and the laws hold for every data set: permutation (and the rotation of op wlaws), "
+              "values times any p -> (p avg, |p| SE), weights times any q <> 0 -> unchanged, values + c -> (avg + c, SE) for weights of non-zero sum (op wshift), positive weights -> avg between the smallest and largest value; "
+              "mean and median lie within the range of the data, the median of an odd number of data is the middle order statistic, Standard_Deviation^2 = Variance >= 0 for N >= 2; "
+              "either orientation of the grids: Linear_Space(max,min,n) / Log_Space(max,min,n) is the ascending grid reversed; "
+              "object histories (op history): for every sequence, of any length, of Arithmetic_Mean/Variance/Standard_Deviation/Median calls on one vector (Median reorders it) every call answers as on the original data, the vector stays a permutation of the data "
+              "(the data themselves until the first Median, the sorted data afterwards in the model), and a call answers the same after any two histories (induction over the history with a permutation invariant); "
+              "Workload_Distribution is a partition: every task index lies in the half-open block of exactly one worker; list templates against each other: Sub_List undoes Combine_Lists, Sub_List(0..k) combined with Sub_List(k+1..n-1) is the list "
+              "(the inclusive upper index), List_Contains = Find_Indices non-empty, number of indices = number of occurrences, Flatten of two rows = Combine, Transpose twice = identity on rectangular tables with a row and a column. "
+              "Not theorems: all of the above over R says nothing about rounding - the rounding behaviour of the floating-point grids and statistics, in particular that the three cancelling sums of Cochran's formula stay close to the closed form in doubles (covered by correspondence, bit-identical, and by S4 with a-priori rounding slack); which permutation std::nth_element leaves in the caller's vector (the model takes the sorted one; order-sensitive calls after a Median are compared on data whose partial sums are exact); that std::nth_element/upper_bound/is_sorted meet their specifications; that the C++ helpers read no ambient process state (errno, exception flags, stream state) and keep no statics is a fact about the code, tied by correspondence on sessions and by the fresh-process comparison, not a theorem. "
               "The Gallina model is the term that is extracted and run against the C++ helpers on every run, and every clause of the property is also evaluated on the implementation's output.")
 LEVEL_NOTE = ("Coq 8.16.1 kernel; theorems over Z/nat/lists are axiom-free, theorems over R use the standard library's real-number axioms (listed in the evidence); "
               "hand-written model tied by differential correspondence (extraction with ExtrOcamlBasic only); std::nth_element/upper_bound/is_sorted modelled by their specifications")
@@ -381,6 +391,48 @@ def wlaw_cases(rng, count):
     return cs
 
 
+def wshift_cases(rng, count):
+    """translation law of Weighted_Average (theorem C19_weighted_translate): the data and the data with every value shifted by t"""
+    cs = []
+    for _ in range(count):
+        n = rng.choice([2, 2, 3, 4, 5, 8, 16, rng.randint(2, 64)])
+        kind, v = unit_data(rng, n)
+        w = [rng.choice([1.0, 1.0, rng.uniform(0.1, 10)]) if rng.random() < 0.7 else 2.5 for _ in range(n)]
+        if rng.random() < 0.3: w = [w[0]] * n
+        if rng.random() < 0.3: w = [float(rng.randint(1, 8)) * 0.25 for _ in range(n)]
+        mx = max(abs(x) for x in v) or 1.0
+        t = float(rng.randint(-50, 50)) if kind == "half-integers" else rng.choice([0.0, rng.uniform(-1, 1) * mx, rng.choice([-1, 1]) * mx * 10 ** rng.uniform(0, 6), 1.0, -mx])
+        cs.append(Case(f"wshift {n} " + " ".join(f"{hx(a)} {hx(b)}" for a, b in zip(v, w)) + f" {hx(t)}", ("wshift", "wshift-" + kind), tol=(1e-6, 1e-320)))
+    return cs
+
+
+HIST_OPS = ("mean", "variance", "stddev", "median")
+
+
+def history_cases(rng, count):
+    """object histories (theorems C19_stat_history*): one vector handed to a sequence of statistics calls, Median reorders it.
+    'exact': half-integers times a power of two - every partial sum of the data is exact, so the order std::nth_element leaves does not
+    show in the mean; 'wide': data from the whole double range, the order-sensitive calls only before the first Median."""
+    cs = []
+    for _ in range(count):
+        m = rng.choice([1, 2, 3, 4, 6, 8, 12])
+        if rng.random() < 0.6:
+            n = rng.choice([2, 3, 4, 5, 6, 7, 8, 16, 17, rng.randint(2, 64)])
+            e = rng.choice([0, 0, 1, -1, rng.randint(-400, 400)])
+            d = [math.ldexp(rng.randint(-12, 12) * 0.5, e) for _ in range(n)]
+            ops = [rng.choice([0, 1, 2, 3, 3]) for _ in range(m)]
+            kind = "exact"
+        else:
+            n = rng.choice([2, 2, 3, 4, 5, 8, 9, 10, 31, 32, rng.randint(2, 120)])
+            cls, d = stat_data(rng, n)
+            k = rng.randint(0, m)
+            ops = [rng.choice([0, 1, 2]) for _ in range(k)] + [3] * (m - k)
+            kind = "wide"
+        shape = "no-median" if 3 not in ops else ("median-first" if ops[0] == 3 else "median-later")
+        cs.append(Case(f"history {flist(d)} {ilist(ops)}", ("history", "history-" + kind, "history-" + shape), tol=(1e-9, 1e-320)))
+    return cs
+
+
 DPOOL = [0.0, -0.0, 1.0, -1.0, 2.5, math.nan, math.inf, -math.inf, 5e-324, -5e-324, DBL_MAX, -DBL_MAX, 1.0 + 2.0 ** -52, 3.0]
 
 
@@ -514,7 +566,7 @@ def never_exits(line):
     return op != "seq"
 
 
-SESSION_GROUPS = [(("logspace",), 30), (("linspace",), 12), (("mean", "variance", "stddev", "median", "median2", "wavg", "wavg1", "laws", "wlaws"), 28), (("closest",), 8),
+SESSION_GROUPS = [(("logspace",), 30), (("linspace",), 12), (("mean", "variance", "stddev", "median", "median2", "wavg", "wavg1", "laws", "wlaws", "wshift", "history"), 28), (("closest",), 8),
                   (("workload", "range", "range1", "range2", "lists_equal", "combine", "flatten", "contains", "find_indices", "sub_list", "transpose", "lists_equal2", "transpose2",
                     "lists_equal_d", "lists_equal2_d", "combine_d", "flatten_d", "contains_d", "find_indices_d", "sub_list_d", "transpose_d", "transpose2_d"), 22)]
 EXTREME_TAGS = {"logspace-extreme", "linspace-extreme", "stat-top", "stat-wide-huge", "stat-straddle", "logspace-wide"}
@@ -699,6 +751,8 @@ def generate(rng, tier):
     cs += stat_cases(rng, 3000 if big else 260)
     cs += law_cases(rng, 3000 if big else 260)
     cs += wlaw_cases(rng, 1500 if big else 150)
+    cs += wshift_cases(rng, 1500 if big else 120)
+    cs += history_cases(rng, 3000 if big else 300)
     # sessions: the requests above again, several per process, with the ambient state other code leaves behind
     cs += session_cases(rng, list(cs), 8000 if big else 500, 400 if big else 90)
     return cs
@@ -719,7 +773,8 @@ def nontrivial(c, io):
     if op == "sub_list":
         n = int(t[1]); i1 = int(t[2 + n]); i2 = int(t[3 + n]); return i1 < 0 or i2 >= n
     if op == "transpose": return int(t[1]) > 1 and int(t[2]) > 1
-    if op in ("mean", "variance", "stddev", "median", "wavg", "median2", "wavg1", "laws", "wlaws"): return int(t[1]) >= 3
+    if op in ("mean", "variance", "stddev", "median", "wavg", "median2", "wavg1", "laws", "wlaws", "wshift"): return int(t[1]) >= 3
+    if op == "history": return int(t[1]) >= 3 and int(t[2 + int(t[1])]) >= 2
     if op == "range1": return abs(int(t[1])) >= 2
     if op == "range2": return abs(int(t[2]) - int(t[1])) >= 2
     return len(t) > 3
@@ -935,6 +990,39 @@ def predicates(c, io):
             for q, nm in ((1, "average"), (2, "standard error")):
                 if not _same(v[8 + q], v[q]):
                     out.append(("wlaws:scaling-weights", f"weights scaled by the power of two {qf!r}: {nm} {v[8 + q]!r}, expected exactly {v[q]!r}"))
+    elif op == "wshift":
+        pv = parse_vals(c.line)[1:]; n = pv[0]; dd = [float(x) for x in pv[1:1 + 2 * n]]; vals = dd[0::2]; ws = dd[1::2]; tf = float(pv[1 + 2 * n])
+        if len(v) != 8 or v[0] != 2 or v[4] != 2: return [("wshift:shape", f"expected two (2, average, standard error, flag) groups, got {io[:60]}")]
+        if v[3] != 1 or v[7] != 1: out.append(("wshift:data-unchanged", "Weighted_Average changed the data it was handed by reference"))
+        sh = [x + tf for x in vals]
+        if not all(finite(x) for x in sh): return out
+        r0 = WavgRef(vals, ws); r1 = WavgRef(sh, ws)
+        out += r0.check(v[1], v[2], "wshift:data")
+        out += r1.check(v[5], v[6], "wshift:shifted", " of the shifted data")
+        # the law itself where the shift of the data is exact: average + t, the same standard error (each to the bounds of the formula as written)
+        if r0.ok and all(Fraction(x) + Fraction(tf) == Fraction(y) for x, y in zip(vals, sh)) and not r0.reg_avg and not r1.reg_avg:
+            if not (finite(v[1]) and finite(v[5]) and abs(Fraction(v[5]) - Fraction(v[1]) - Fraction(tf)) <= r0.tol_avg + r1.tol_avg):
+                out.append(("wshift:translation-average", f"values shifted by {tf!r}: average {v[5]!r}, average of the data {v[1]!r}"))
+            if n >= 2 and not r0.reg_se and not r1.reg_se and finite(v[2]) and finite(v[6]):
+                lo = sqrt_bounds(max(Fraction(0), r0.se2 - r0.d2 - r1.d2))[0] * (1 - 8 * UR); hi = sqrt_bounds(r0.se2 + r0.d2 + r1.d2)[1] * (1 + 8 * UR)
+                # both answers lie within the bounds of the formula as written around the common exact value
+                if not (lo <= Fraction(v[6]) <= hi and lo <= Fraction(v[2]) <= hi):
+                    out.append(("wshift:translation-standard-error", f"values shifted by {tf!r}: standard error {v[6]!r}, of the data {v[2]!r} (admissible {float(lo)!r} .. {float(hi)!r})"))
+    elif op == "history":
+        pv = parse_vals(c.line)[1:]; n = pv[0]; d = [float(x) for x in pv[1:1 + n]]; m = pv[1 + n]; ops = [int(x) for x in pv[2 + n:2 + n + m]]
+        if len(v) != m + 1 + n or v[m] != n: return [("history:shape", f"expected {m} answers and the vector of {n}, got {io[:60]}")]
+        ref = StatRef(d); meds = []
+        for k, (o, got) in enumerate(zip(ops, v[:m])):
+            nm = HIST_OPS[o] if 0 <= o < 3 else "median"
+            before = ", ".join(STAT_NAME[HIST_OPS[min(x, 3)]] for x in ops[:k]) or "nothing"
+            out += stat_check(nm, ref, got, f"history:{nm}", f" (call {k + 1} on one vector object; earlier calls on it: {before})")
+            if nm == "median": meds.append(got)
+        if any(not _same(a, meds[0]) for a in meds[1:]): out.append(("history:repeat-median", f"Median calls on the same vector object answered {meds[:4]}"))
+        fin = [float(x) for x in v[m + 1:]]
+        if 3 not in ops and any(o <= 3 for o in ops):
+            if list(map(_key, fin)) != list(map(_key, d)): out.append(("history:data-unchanged", "a call taking the vector by const reference changed it"))
+        elif sorted(map(_key, fin)) != sorted(map(_key, d)):
+            out.append(("history:permutation", f"after the history the caller's vector is no longer a permutation of the data: {sorted(fin)[:6]} against {sorted(d)[:6]}"))
     elif op in ("range1", "range2"):
         a, b = (0, int(t[1])) if op == "range1" else (int(t[1]), int(t[2]))
         exp = list(range(a, b, 1 if a < b else -1))
